@@ -128,6 +128,16 @@ Theorem C23_refines_bounded : forall t, wf t = true -> (length t <= 3)%nat ->
 Proof. exact bounded_3. Qed.
 Print Assumptions C23_refines_bounded.
 
+(* the same in terms of event lists: along EVERY history (list of events, each one possible in
+   the state reached, i.e. parent-first imports on live forks and finalisations of descendants of
+   the last finalised block) over such a tree and announcement set, outside the guard *)
+Theorem C23_refines_bounded_histories : forall t, wf t = true -> (length t <= 3)%nat ->
+  forall sf, In sf (change_sets (S (length t)) t 2 2 1) ->
+  forall evs, (length evs <= 2 * length t + 1)%nat ->
+  agree_run t (fst sf) (snd sf) [O] O ginit sinit evs.
+Proof. exact bounded_3_histories. Qed.
+Print Assumptions C23_refines_bounded_histories.
+
 Theorem C23_refines_bounded_4 : forall t, wf t = true -> length t = 4%nat ->
   forall sf, In sf (change_sets (S (length t)) t 2 2 1) ->
   explore (2 * length t + 1) t (fst sf) (snd sf) [O] O ginit sinit = true.
